@@ -161,3 +161,17 @@ func DeferRetBad(t *T, x int) bool {
 	}
 	return true
 }
+
+// boolean variable assigned from a disjunction, branched on later in the same block
+func PhiOrGood(x int, t *T) {
+	skip := t.ready || check(x)
+	if !skip {
+		sink(x)
+	}
+}
+func PhiOrBad(x int, t *T) {
+	skip := t.n > 3 || check(x)
+	if !skip {
+		sink(x)
+	}
+}
